@@ -1026,7 +1026,7 @@ def tier_opts(tier):
         return {"runs": 400000, "determinism_sample": 1024, "perturb_sample": 2000, "asan_runs": 60000,
                 "forth_max_words": 120, "forth_schedules": 4, "run_timeout": 30.0, "shrink_per_class": 3,
                 "mutants": True}
-    return {"runs": 40000, "determinism_sample": 64, "perturb_sample": 300, "forth_max_words": 40,
+    return {"asan_runs": 6000, "runs": 40000, "determinism_sample": 64, "perturb_sample": 300, "forth_max_words": 40,
             "forth_schedules": 3, "run_timeout": 6.0, "shrink_per_class": 2}
 
 
